@@ -2,7 +2,7 @@
 """Regenerates MANIFEST.json from the table below (one entry per claimed property)."""
 import json
 props = [json.loads(l) for l in open('/verif/properties.jsonl')]
-FIXES = ["4919a31", "c4a424f", "4f698e4", "b6107c4", "70a6e6e", "df2f96d", "2f83e4a"]
+FIXES = ["4919a31", "c4a424f", "4f698e4", "b6107c4", "70a6e6e", "df2f96d", "2f83e4a", "b4ed670", "7ec8d12"]
 BROKER_NOTE = ("Trusted: TLC, the virtual-time loop/clock rebinding, the recorder's projection of DummyQueue. "
                "In-memory broker only so far (Redis/RabbitMQ need the fake servers, see DESIGN 9).")
 WORKER_NOTE = ("Trusted: TLC, virtual-time loop, recorder, scripted actors. In-memory broker; Redis/RabbitMQ not covered yet.")
@@ -23,6 +23,8 @@ CLAIMS = {
  "C16": dict(text="MessageApi.tla state machine (OneTerminal, AfterUse, StoreInOrder checked by TLC over all call sequences <= 4); every call sequence up to the bound executed on real Message objects obtained by iterating a queue in each category and on real MessageDependency objects inside actor_run, validated against Trace_MessageApi (refusals, broker calls, read-only flag, callback/result-store order, body stops)", tech="TLA+ state machine + TLC; exhaustive call-sequence trace validation", design="6/C16", note="Exhaustive for length <= 4 in the thorough tier; quick samples the longest sequences."),
  "C18": dict(text="Deps.tla: value term / failure of a provider graph after overrides; MC_Deps sanity theorems on all 4-node graphs; generated graphs built from real Depends objects (sync providers in the real thread pool), resolved through _Processor.actor_run, received values compared by TLC with Expected(graph, overrides, deps)", tech="TLA+ operator spec + TLC; spec-vs-code case validation", design="6/C18", note="Graphs <= 3 nodes exhaustive-sampled in quick, <= 4 in thorough; real threads only for sync providers (order-insensitive assertions)."),
  "C19": dict(text="Schedule.tla operators; TLC checks Monotone/InRange/OnGrid/Window/UntilWins/Overdue over the whole bounded domain, Apalache proves Window/OnGrid/Cadence for unbounded integers; every input of the domain evaluated on the real functions under a pinned clock (several unit scales, grid anchored at timestamp or at the scheduled time) and compared by TLC; large magnitudes sampled", tech="TLA+ operators + TLC exhaustive + Apalache (unbounded) ; spec-vs-code case validation", design="6/C19", note="The large-magnitude half (beyond 32-bit TLC integers) is sampling of the same formulas."),
+ "C17": dict(text="Middleware.tla (TLC: OncePerOp, BeforePrecedesEffect, AfterIffSuccess, NestedSilent, RightConnection); complete job life cycles with every wrapped operation observed from outside (call/ret), inside (effect) and through a recording subscriber on all 26 signals, validated against Trace_Middleware (incl. two connections alive, argument names, mixed raising+slow subscribers); non-interference as a differential run (none vs ok/raising/slow/sync/mixed subscribers) on per-message call / move / execution streams and results", tech="TLA+ protocol spec + TLC; trace validation; differential runs", design="6/C17", note="In-memory brokers; sync subscribers (executor threads) take part in the differential comparison only."),
+ "C20": dict(text="Health.tla (TLC: OpenIffRunning, No200AfterFailure); the real HealthCheckServer/_HttpServerProtocol inside real Worker runs on the virtual loop with a recording fake listening socket; hand-fed connections with byte strings of 8 request classes, valid requests split in two chunks, connections opened before / answered after an injected consumer failure, the same Worker run repeatedly; validated against Trace_Health (response code at response time, well-formed response, server still listening, jobs undisturbed)", tech="TLA+ spec + TLC; trace validation of hand-fed protocol runs", design="6/C20", note="No real socket: loop.create_server is a recording fake and asyncio's fatal-error handling of data_received is imitated (exception => connection dropped)."),
 }
 checks = []
 for p in props:
